@@ -36,7 +36,9 @@ START_FAIL = {'ENOENT': FileNotFoundError, 'EACCES': PermissionError,
               'ENOMEM': OSError, 'EAGAIN': OSError,
               # what subprocess raises for a command line it cannot use: an
               # argument that is not a string, a NUL byte in an argument
-              'BADARG': TypeError, 'NULBYTE': ValueError}
+              'BADARG': TypeError, 'NULBYTE': ValueError,
+              # an empty command line
+              'EMPTYCLI': IndexError}
 
 
 def gen_scenario(rng, fam):
@@ -288,6 +290,8 @@ def run_scenario(scn, chooser, max_steps=200000):
                 raise exc('expected str, bytes or os.PathLike object, not int')
             if cmd['start'] == 'NULBYTE':
                 raise exc('embedded null byte')
+            if cmd['start'] == 'EMPTYCLI':
+                raise exc('list index out of range')
             raise exc(getattr(errno, cmd['start']),
                       os.strerror(getattr(errno, cmd['start'])), cli[0])
         # the child writes straight to the descriptors it was given
